@@ -126,3 +126,25 @@ Theorem C37_forward_state_frame_refuted :
             = ["history._insert_sensor_history_stage"].
 Proof. exact forward_state_frame_refuted. Qed.
 Print Assumptions C37_forward_state_frame_refuted.
+
+(* ---- producer-before-consumer ordering ---------------------------------------------------- *)
+(* For step1, step2 and forward (and every nested list of their flattened trees): the only
+   Data fields written AFTER an earlier event of the same list has purely read them are the
+   committed lists war_step1 / war_step2 / war_forward.  So for every other field F and every
+   reader of F, ALL writers of F in the list precede the reader; in particular every launch
+   writing d.M (crb's _M and _tendon_armature) precedes factor_m, i.e. the d.qLD that step1
+   leaves for step2's solve_m factorises the finished d.M. *)
+Theorem C37_writers_precede_readers :
+  (war_unexplained war_step1 (step1_events pv_euler),
+   war_unexplained war_step1 (step1_events pv_implicit),
+   war_unexplained war_step2 (step2_events pv_euler),
+   war_unexplained war_step2 (step2_events pv_implicit),
+   war_unexplained war_forward (forward_events pv_common)) = (nil, nil, nil, nil, nil).
+Proof. exact writers_precede_readers_all. Qed.
+Print Assumptions C37_writers_precede_readers.
+
+Theorem C37_M_complete_before_factor :
+  mem "d.M" (war (step1_events pv_euler)) = false /\
+  mem "d.M" (war (step1_events pv_implicit)) = false.
+Proof. exact M_complete_before_factor. Qed.
+Print Assumptions C37_M_complete_before_factor.
